@@ -632,7 +632,7 @@ func replyFor(g *genCtx, sp sessParams, class byte, fn, cmdNo byte, prefix []byt
 	case 'F':
 		r = b.seal(rsp(fn, cmdNo, 0, body))
 	case 'E':
-		r = b.seal(rsp(fn, cmdNo, []byte{0xC1, 0xC9, 0xD4, 0xFF, 0x80}[g.rng.Intn(5)], nil))
+		r = b.seal(rsp(fn, cmdNo, finalErrorCode(g.rng), nil))
 	case 'B':
 		r = b.seal(rsp(fn, cmdNo, 0xC0, nil))
 	case 'T':
@@ -950,3 +950,4 @@ func genSend(g *genCtx) {
 		}
 	}
 }
+
